@@ -7,6 +7,8 @@
     ri  <rect> <rect>           rectangles_intersect          -> 0/1
     sr  <rect>                  sub_rectangles                -> r;r;r;r
     ip  <pos> <poly>            in_polygon                    -> 0/1
+    lpi <line> <poly>           line_polygon_intersections    -> hits "xi0 xi1 x y" in edge order, joined by ;
+    lir <rect> <line>           line_intersects_rectangle     -> 0/1 and the rounds used
     bp  <points>                bounds_of_points              -> rect
     geo <columns> <layers> <qtree> <queries>                  -> results joined by |
     trk <columns> <line> <percolumn> <disttable>              -> track
@@ -14,7 +16,7 @@
 From Coq Require Import Ascii String List Bool Arith ZArith PArith QArith Qreduction FMapPositive.
 From PTBase Require Import Exn PyStr PyNum PyVal Wire.
 From Gen Require Import GenGeom.
-From P Require Import Locate.
+From P Require Import Locate LineModel.
 Import ListNotations.
 Open Scope char_scope.
 
@@ -240,6 +242,15 @@ Definition run_case (line : str) : str :=
       if str_eqb k (s2l "ir") then show_bool (in_rectangle (parse_pt a) (parse_rect b))
       else if str_eqb k (s2l "ri") then show_bool (rectangles_intersect (parse_rect a) (parse_rect b))
       else if str_eqb k (s2l "ip") then show_bool (in_polygon (parse_pt a) (parse_pts b))
+      else if str_eqb k (s2l "lpi") then
+             let ln := parse_rect a in
+             join_with (s2l ";")
+               (map (fun h => show_q (h_xi0 h) ++ sp ++ show_q (h_xi1 h) ++ sp ++ show_pt (h_pt h))
+                    (lpi_hits (parse_pts b) (fst ln) (snd ln)))
+      else if str_eqb k (s2l "lir") then
+             let ln := parse_rect b in
+             show_bool (line_intersects_rectangle (parse_rect a) (fst ln) (snd ln)) ++ sp ++
+             show_nat (lir_rounds 8 (parse_rect a) (px (fst ln)) (py (fst ln)) (px (snd ln)) (py (snd ln)))
       else s2l "BADCASE"
   | [k; a; b; c; d] =>
       if str_eqb k (s2l "geo") then run_geo a b c d
